@@ -24,7 +24,7 @@ RULE = ("Case = destination kind (recorder probe, Input, Counter, two-state FSM;
         "cleaning up with a stop_async in progress, finished; optionally also after a start that edzed refused "
         "because of an eager task factory), each with a generated data shape: value positional / "
         "keyword / absent, source absent / text (incl. '', '_ext_', '_ext_x', 'x_ext_', unicode) / non-string, "
-        "extra items; plus a user block with a generated name acting as internal event source. "
+        "extra items (also items named like parameters used inside the library: etype, data, dest, event, name); plus a user block with a generated name acting as internal event source. "
         "Non-trivial = every case (all seven phases are exercised); distinct by descriptor.")
 ASSUMPTIONS = [
     "'running' is Circuit.is_ready(): the simulation task has started and no error/stop has been "
@@ -81,6 +81,8 @@ shape_st = st.fixed_dictionaries({
                         source_st.map(lambda s: ['str', s]),
                         st.integers(0, len(NONSTR) - 1).map(lambda i: ['bad', i])),
     'extra': st.booleans(),
+    # data items whose names coincide with parameter names used inside the library
+    'odd_names': st.integers(0, 3).map(lambda n: n == 0),
     'val': st.sampled_from(['k', 'k', 0, '', None, False]),
 })
 PHASES = ['not started', 'task created', 'initialising', 'running', 'running', 'running',
@@ -174,6 +176,8 @@ def execute(case):
             if sh['extra']:
                 data['extra'] = ('x', k)
                 data['amount'] = 2
+            if sh.get('odd_names'):
+                data.update(etype='click', data=('d', k), dest='nowhere', event=0, name='n', filters=None)
             n_seen, n_rec = len(seen), len(reclog)
             state_before = (dest.output, getattr(dest, 'state', None))
             try:
